@@ -254,3 +254,27 @@ def make_mesh(h, name, var='p', free=None, cls=None, pt=None, validity_assumptio
         P = h.sym(var, p.shape, nominal=p)
         m = C(np.array(P, dtype=float), t, **mesh_kw)
     return m
+
+
+def own_det_at(m, cell, Xexpr):
+    """Jacobian determinant of the own reference map of `cell` at the reference point given by expressions Xexpr (Syms)."""
+    import z3
+    from .astdiff import dsym
+    refdom = m.refdom
+    R = np.asarray(refdom.p, dtype=float)
+    dim, nn = R.shape
+    P = m.doflocs
+    t = np.asarray(m.t)
+    X = [Sym.var('Xd!%d' % k) for k in range(dim)]
+    lam = ref_weights(refdom, X)
+    x = [sum(lam[a] * P[dd, t[a, cell]] for a in range(nn)) for dd in range(dim)]
+    J = np.empty((dim, dim), dtype=object)
+    for j in range(dim):
+        cache = {}
+        for i in range(dim):
+            J[i, j] = dsym(x[i], X[j], cache)
+    d = tosym(det_obj(J))
+    if d.c is not None:
+        return d
+    sub = z3.substitute(d.a, *[(X[j].a, tosym(Xexpr[j]).a) for j in range(dim)])
+    return Sym(z3.simplify(sub))
